@@ -13,10 +13,13 @@ import (
 	"strings"
 	"time"
 
+	"cosmossdk.io/core/appmodule"
 	"cosmossdk.io/log"
 	"cosmossdk.io/math"
 	abci "github.com/cometbft/cometbft/abci/types"
 	sdk "github.com/cosmos/cosmos-sdk/types"
+	"github.com/cosmos/cosmos-sdk/types/module"
+	crisistypes "github.com/cosmos/cosmos-sdk/x/crisis/types"
 	minttypes "github.com/cosmos/cosmos-sdk/x/mint/types"
 	stakingtypes "github.com/cosmos/cosmos-sdk/x/staking/types"
 
@@ -644,27 +647,55 @@ func (w *World) delAddr(i int) sdk.AccAddress {
 func (x *Exec) nextBlock(op *Op) Res {
 	w := x.W
 	var out Res
-	r1 := x.direct(func(ctx sdk.Context) error {
-		_, err := w.App.StakingKeeper.EndBlocker(ctx)
-		return err
-	})
-	x.MidSnap = TakeSnap(w, x.Ctx)
-	if !r1.OK {
-		out.StakingEBErr = r1.Err + r1.Panic
-		x.Halted = "staking end-blocker: " + out.StakingEBErr
-		out.Err = x.Halted
+	// The end-blockers run through the application's module manager, in the order app.go
+	// configures (x/crisis, whose only job is to assert invariants every n blocks, is left out):
+	// the relative order of staking (validator-set update) and alliance (rebalance) and the
+	// module's own EndBlock wiring are part of what is under test.
+	x.MidSnap = nil
+	mm := w.App.ModuleManager
+	for _, name := range mm.OrderEndBlockers {
+		if name == crisistypes.ModuleName {
+			continue
+		}
+		mod, ok := mm.Modules[name]
+		if !ok {
+			continue
+		}
+		if name == alliancetypes.ModuleName {
+			x.MidSnap = TakeSnap(w, x.Ctx) // state the alliance end-blocker starts from
+		}
+		r := x.direct(func(ctx sdk.Context) error {
+			if m, ok := mod.(appmodule.HasEndBlocker); ok {
+				return m.EndBlock(ctx)
+			}
+			if m, ok := mod.(module.HasABCIEndBlock); ok {
+				_, err := m.EndBlock(ctx)
+				return err
+			}
+			return nil
+		})
+		out.Events = append(out.Events, r.Events...)
+		if r.OK {
+			continue
+		}
+		switch name {
+		case alliancetypes.ModuleName:
+			out.AllianceEBErr = r.Err + r.Panic
+			out.Panic = r.Panic
+			out.Err = r.Err
+			x.Halted = "alliance end-blocker: " + out.AllianceEBErr
+		default:
+			out.StakingEBErr = name + ": " + r.Err + r.Panic
+			x.Halted = name + " end-blocker: " + r.Err + r.Panic
+			out.Err = x.Halted
+		}
+		if x.MidSnap == nil {
+			x.MidSnap = TakeSnap(w, x.Ctx)
+		}
 		return out
 	}
-	r2 := x.direct(func(ctx sdk.Context) error {
-		return alliance.EndBlocker(ctx, w.App.AllianceKeeper)
-	})
-	out.Events = append(r1.Events, r2.Events...)
-	if !r2.OK {
-		out.AllianceEBErr = r2.Err + r2.Panic
-		out.Panic = r2.Panic
-		out.Err = r2.Err
-		x.Halted = "alliance end-blocker: " + out.AllianceEBErr
-		return out
+	if x.MidSnap == nil {
+		x.MidSnap = TakeSnap(w, x.Ctx)
 	}
 	x.LastEndTime = x.Ctx.BlockTime()
 	x.EndSnap = TakeSnap(w, x.Ctx)
